@@ -124,6 +124,14 @@ def cases(ctx):
                     if op == "graph.analyze" and sc[0] == "all":
                         continue
                     out.append({"op": op, "in": {"position": pos, "tkind": tk, "scope": sc[0]}})
+    # status class x media category of the response / request body that carries the only reference to Tgt
+    from graphgen import MEDIA_POSITIONS
+    mp = MEDIA_POSITIONS if not ctx.quick else r.sample(MEDIA_POSITIONS, 40)
+    for pos in mp:
+        for tk in (["object", "strenum", "union", "arr"] if not ctx.quick else [r.choice(["object", "object", "strenum", "union", "arr"])]):
+            sc = r.choice(SCOPES)
+            for mode in (["client-mod", "server-mod"] if not ctx.quick else [r.choice(["client-mod", "server-mod"])]):
+                out.append({"op": "graph.emit", "in": {"position": pos, "tkind": tk, "scope": sc[0], "mode": mode}})
     n = 150 if ctx.quick else 1500
     for _ in range(n):
         names = ["A", "B", "C", "D", "E"][: r.randint(2, 5)]
